@@ -403,21 +403,31 @@ def main(argv):
         shard_err.append(("(model)", "the model no longer compiles:\n" + (out_r or out_m)[-2000:]))
 
     # ---- 5: decide
-    have_failing_input = any(sfx == "" for _, sfx in violations) or bool(known_hits)
-    if not proof["ok"]:
-        what = "proof obligation no longer checks: " + "; ".join(proof.get("gate") or []) if proof.get("gate") else \
-            "proof obligation no longer checks (make %s failed)" % target
-        broken = None
-        m = re.search(r'File "\./([^"]+)", line (\d+)', proof.get("log_tail", ""))
-        if m:
-            broken = "%s:%s" % (m.group(1), m.group(2))
-        rp = new_replay({"kind": "proof-obligation", "theorem": broken or props_file, "what": what,
-                         "log": proof.get("log_tail", "")})
-        sfx = "" if any(s == "" for _, s in violations) else " no-failing-input-found"
-        if sfx:
-            violations.append((rp, sfx))
-        else:
-            notes.append("also: " + what)
+    def search_failing_input(reason):
+        """oracle-only run at a larger budget with another seed; True when a failing input was found"""
+        if a.replay:
+            return False
+        n2 = cfg.get("search_n", max(4 * n, 1000))
+        w2 = work + "-search"
+        shutil.rmtree(w2, ignore_errors=True)
+        found = False
+        rc2, _ = sh([bin_for(pid), cfg["hx"], "--seed", str(a.seed + 7919), "--n", str(n2), "--out", w2, "--tier", a.tier,
+                     "--shard", "1000000000"], cwd=HARNESS, timeout=cfg.get("search_timeout", 600), env=go_env())
+        try:
+            r2 = json.load(open(os.path.join(w2, "report.json")))
+            for v in r2.get("oracle_violations") or []:
+                if v.get("sig") in known_sigs or v.get("sig") in seen_sig:
+                    continue
+                seen_sig.add(v.get("sig"))
+                rp = new_replay({"kind": "impl-violation", "sig": v.get("sig"), "what": v.get("what"),
+                                 "case": v.get("case"), "observed": v.get("observed"), "found_by": "search after " + reason})
+                violations.append((rp, "")); found = True
+        except (OSError, ValueError):
+            pass
+        shutil.rmtree(w2, ignore_errors=True)
+        return found
+
+    searched = False
     if mism or shard_err:
         first = read_case(work, mism[0]) if mism else None
         info = {"kind": "correspondence", "what": "model and implementation disagree" if mism else "correspondence shard failed to evaluate",
@@ -425,31 +435,31 @@ def main(argv):
         if first:
             info["case"] = first.get("case"); info["observed"] = first.get("observed")
             info["run_module"] = cfg.get("run_target")
-        # search: oracle-only run at a larger budget
         found = any(s == "" for _, s in violations)
-        if not found and not a.replay:
-            n2 = cfg.get("search_n", max(4 * n, 1000))
-            w2 = work + "-search"
-            shutil.rmtree(w2, ignore_errors=True)
-            rc2, _ = sh([bin_for(pid), cfg["hx"], "--seed", str(a.seed + 7919), "--n", str(n2), "--out", w2, "--tier", a.tier,
-                         "--shard", "1000000000"], cwd=HARNESS, timeout=cfg.get("search_timeout", 600), env=go_env())
-            try:
-                r2 = json.load(open(os.path.join(w2, "report.json")))
-                for v in r2.get("oracle_violations") or []:
-                    if v.get("sig") in known_sigs or v.get("sig") in seen_sig:
-                        continue
-                    seen_sig.add(v.get("sig"))
-                    rp = new_replay({"kind": "impl-violation", "sig": v.get("sig"), "what": v.get("what"),
-                                     "case": v.get("case"), "observed": v.get("observed"), "found_by": "search after correspondence mismatch"})
-                    violations.append((rp, "")); found = True
-            except (OSError, ValueError):
-                pass
-            shutil.rmtree(w2, ignore_errors=True)
+        if not found:
+            found = search_failing_input("correspondence mismatch"); searched = True
         if not found:
             rp = new_replay(info)
             violations.append((rp, " no-failing-input-found"))
         else:
             notes.append("correspondence also mismatched on %d cases" % len(mism))
+    if not proof["ok"]:
+        what = "proof obligation no longer checks: " + "; ".join(proof.get("gate") or []) if proof.get("gate") else \
+            "proof obligation no longer checks (make %s failed)" % target
+        broken = None
+        m = re.search(r'File "\./([^"]+)", line (\d+)', proof.get("log_tail", ""))
+        if m:
+            broken = "%s:%s" % (m.group(1), m.group(2))
+        found = any(s == "" for _, s in violations)
+        if not found and not searched:
+            # a broken obligation alone: look for a concrete failing input before giving up on one
+            found = search_failing_input("broken proof obligation")
+        if not found:
+            rp = new_replay({"kind": "proof-obligation", "theorem": broken or props_file, "what": what,
+                             "log": proof.get("log_tail", "")})
+            violations.append((rp, " no-failing-input-found"))
+        else:
+            notes.append("also: " + what + (" (%s)" % broken if broken else ""))
 
     # thorough: independent re-check of the compiled proofs
     coqchk_info = None
